@@ -2,7 +2,7 @@
 # ./selftest.sh <Cxx> [patch ...]  -- for each patch (default mutants/<Cxx>/*.diff and seeded/*/patch.diff whose meta names <Cxx>):
 # makes a scratch worktree of /repo's HEAD under /dev/shm, applies the patch there, runs the quick check with VERIF_REPO pointing
 # at it and expects a VIOLATION; removes the worktree. /repo itself is never modified. Not part of quick/thorough.
-cd /verif
+cd "$(dirname "$(readlink -f "$0")")"
 id="$1"; shift
 files=("$@")
 if [ ${#files[@]} -eq 0 ]; then
